@@ -45,7 +45,7 @@ def concretize(form, t, rng=None):
     body = b"".join(b for _, b in parts)
     if form == "star":
         return b"*", []
-    prefix = {"origin": b"/", "dslash": b"//", "abs": b"http://h/", "mount": b"/m/"}[form]
+    prefix = {"origin": b"/", "dslash": b"//", "abs": b"http://h/", "absempty": b"http://h", "mount": b"/m/", "mounth": b"/m/"}[form]
     return prefix + body, parts
 
 
@@ -85,7 +85,7 @@ def abstract_path(path, parts, form):
             exp.append((b, "hi"))
         else:
             exp.append((b, {"a": "a", "/": "/", ";": ";", "+": "+", "ht": "ht"}[s]))
-    lead = 2 if form == "dslash" else 1
+    lead = 2 if form == "dslash" else 0 if form == "absempty" else 1
     toks = []
     chars = list(path)
     # leading slashes
@@ -154,6 +154,8 @@ def observe(form, t, rng, hdrs=None, method="GET", ver=11, vary=False):
         expect_str[raw.strip(b" \t").decode("latin-1")] = v
         nm = names[n] if rng.random() < 0.5 else names[n].upper()
         hl += nm.encode() + b": " + raw + b"\r\n"
+    if form == "mounth":
+        hl += b"SCRIPT_NAME: /m\r\n"     # the forwarder header of a front-end that mounts the application under /m
     ctype = rng.random() < 0.3
     if ctype:
         hl += b"Content-Type: text/x\r\nContent-Length: 0\r\n"
@@ -172,7 +174,11 @@ def observe(form, t, rng, hdrs=None, method="GET", ver=11, vary=False):
         os.environ["SCRIPT_NAME"] = "/m"
     try:
         # the peer may or may not be one of the permitted forwarders (the default list: loopback)
-        r = drv.serve("sync", cfg, [req], app, peer=rng.choice(PEERS) if vary else PEERS[0])
+        if form == "mounth":
+            peer = rng.choice([PEERS[0], ""])       # permitted forwarders: loopback, a unix-socket peer
+        else:
+            peer = rng.choice(PEERS) if vary else PEERS[0]
+        r = drv.serve("sync", cfg, [req], app, peer=peer)
     finally:
         os.environ.pop("SCRIPT_NAME", None)
     if not envs:
@@ -275,7 +281,11 @@ def c15(ctx):
     for c in cases:
         add(c["form"], c["t"])
     for _ in range(1500 if ctx.quick else 20000):
-        form = rng.choice(["origin", "origin", "dslash", "abs", "mount"])
+        form = rng.choice(["origin", "origin", "dslash", "abs", "mount", "mounth", "absempty"])
+        if form == "absempty":
+            t = ["q"] + [rng.choice(SYMS) for _ in range(rng.randint(0, 6))] if rng.random() < 0.7 else []
+            add(form, t, method=rng.choice(["GET", "OPTIONS"]), vary=True)
+            continue
         t = [rng.choice(SYMS) for _ in range(rng.randint(0, 10))]
         hdrs = [[rng.choice([1, 2, 3, 4] + list(range(6, 25))), 999 if rng.random() < 0.2 else i + 1] for i in range(rng.randint(0, 6))]
         if rng.random() < 0.1 and form != "abs":
